@@ -363,6 +363,11 @@ Definition seed_clear (n : nat) (fs : list Z) : sfun := fun s t =>
    order, as Collection.List without a read mask hands them out: the stored messages themselves) ---- *)
 Definition rfun := hst -> list tag -> hst * list tag.
 
+(* ---- the merge step of a write (FieldUpdater.Merge) as a heap function of dst (the clone of the old
+   value the write builds the new value in) and src (the caller's message).  [upd_merge] above is the
+   instance without writable-field restriction and reset mask; Alias/Writable.v has the whole function. ---- *)
+Definition mfun := hst -> tag -> tag -> hst.
+
 (* ---- the resource layer ---- *)
 Inductive wmode := MSet | MUpdate (create : bool) | MAdd.
 
@@ -373,7 +378,8 @@ Inductive op :=
 | OList (rm : option (list Z))
 | OPull (rm : option (list Z)) (updates_only : bool) (hook : sfun)
 | OMutArg (k : nat)
-| ORead (rf : rfun).
+| ORead (rf : rfun)
+| OWriteF (id : Z) (arg : list cell) (vis : bool) (mf : mfun) (m : wmode) (ib ia : ifun).
 
 Record state := mkS {
   hs : hst;
@@ -421,8 +427,12 @@ Definition write_fails (st : state) (id : Z) (m : wmode) : bool :=
   | _, _ => false
   end.
 
-(* the caller rewrites every int/string scalar of every object it can reach from its message *)
-Definition scr (p : Z * Z) : Z * Z := if snd p <? 1000000 then (fst p, -7) else p.
+(* the caller rewrites every int/string scalar, every map and every list of int/string scalars of every
+   object it can reach from its message *)
+(* value codes: below 1000000 int / string scalars; from 2000000 maps and lists of int / string scalars (the
+   caller empties the map and puts one entry, overwrites every list element); between: everything the
+   scrambling caller leaves alone *)
+Definition scr (p : Z * Z) : Z * Z := if (snd p <? 1000000) || (2000000 <=? snd p) then (fst p, -7) else p.
 Fixpoint scramble (n : nat) (s : hst) (t : tag) : hst :=
   match n with
   | O => s
@@ -436,9 +446,9 @@ Fixpoint scramble (n : nat) (s : hst) (t : tag) : hst :=
       end
   end.
 
-Definition step (n : nat) (st : state) (o : op) : state :=
-  match o with
-  | OWrite id arg vis um m ib ia =>
+(* one write: GetAndUpdate + changeFn with the merge step mf *)
+Definition write_step (n : nat) (st : state) (id : Z) (arg : list cell) (vis : bool) (mf : mfun) (m : wmode)
+           (ib ia : ifun) : state :=
       let '(s1, a) := alloc_arg (hs st) arg in
       let argsnap := if vis then [a] else [] in
       if write_fails st id m then mkS s1 (store st) (snaps st ++ argsnap) (subsc st) (collection st)
@@ -450,11 +460,17 @@ Definition step (n : nat) (st : state) (o : op) : state :=
           end in
         let '(s3, dst) := clone n Lib s2 old in
         let s4 := ib s3 old a in
-        let s5 := upd_merge n s4 dst a um in
+        let s5 := mf s4 dst a in
         let s6 := ia s5 old dst in
         let evvals := if collection st && negb created then [old; dst] else [dst] in
         let '(s7, evs) := publish_events n s6 (subsc st) evvals in
-        mkS s7 (fins id dst (store st)) (snaps st ++ argsnap ++ [dst] ++ evs) (subsc st) (collection st)
+        mkS s7 (fins id dst (store st)) (snaps st ++ argsnap ++ [dst] ++ evs) (subsc st) (collection st).
+
+Definition step (n : nat) (st : state) (o : op) : state :=
+  match o with
+  | OWrite id arg vis um m ib ia =>
+      write_step n st id arg vis (fun s dst a => upd_merge n s dst a um) m ib ia
+  | OWriteF id arg vis mf m ib ia => write_step n st id arg vis mf m ib ia
   | ODelete id =>
       match fget id (store st) with
       | Some t =>
